@@ -56,9 +56,10 @@ def prepare(case, *, refuse=None, compile_node=-1, comp=None):
     P.target = P.scs[compile_node]
     with sut("compile"):
         P.cc = P.comp.compile(P.target)
-    P.tensors = tie.sym_tensors(*P.base_scs)
-    P.vals = tie.draw_values(P.tensors, case.get("vseed", 0), case.get("profile", "normal"))
-    tie.write_values(P.comp, P.vals)
+    P.vals = tie.draw_values(tie.sym_tensors(*P.base_scs), case.get("vseed", 0), case.get("profile", "normal"))
+    used = ops.used_bases(P.pipe, compile_node % len(P.pipe))
+    P.tensors = tie.sym_tensors(*[P.base_scs[i] for i in used])
+    tie.write_values(P.comp, {t: P.vals[t] for t in P.tensors})
     P.oracle = ops.PipeOracle(P.pipe, P.base_specs, P.base_scs, P.vals, P.domains)
     P.scopes = P.oracle.scopes
     return P
@@ -136,3 +137,103 @@ def base_classes(case, prefixes=("layer:", "nary", "mixing", "outputs:", "var-id
     for s in case["bases"]:
         cl.update(c for c in harness.structure_classes(s) if c.startswith(prefixes))
     return sorted(cl)
+
+
+# ----------------------------------------------------------------------------- general pipelines
+def pipeline_strategy(*, max_ops=3, max_vars=3, max_K=2, semirings=("sum-product", "lse-sum", "complex-lse-sum"),
+                      all_types_single=True):
+    """Cases {bases, pipe, cfg...}: 1..2 skeleton-sharing base circuits and a chain of 1..max_ops
+    operators, valid by construction (a residual share is refused by the library, which is counted)."""
+    from hypothesis import strategies as st
+
+    @st.composite
+    def _s(draw):
+        cfg = draw_cfg(draw, semirings=semirings)
+        sem = cfg["semiring"]
+        family = draw(st.sampled_from(["prob", "prob", "poly"])) if sem != "lse-sum" else "prob"
+        types = ("cat", "catl", "emb", "gau") if family == "prob" else ("pol",)
+        kw = dict(max_vars=max_vars, max_K=max_K, input_types=types, ncat_max=3, deg_max=2, kron_max_out=9)
+        if sem == "lse-sum":
+            kw.update(nonneg=True)
+        elif sem == "complex-lse-sum":
+            kw.update(cx=True)
+        nb = draw(st.integers(1, 2))
+        bases = draw(gen.sd_pair(n=nb, skeleton=True, max_reps=2, same_K=draw(st.booleans()), **kw))
+        dom = gen.domains_of(bases[0])
+        full = frozenset(dom)
+        pipe = [{"op": "base", "i": i} for i in range(nb)]
+        # per-node model: scope, units, pure (only layers that have conjugate/multiply/differentiate rules)
+        info = [{"scope": full, "K": _root_units(b), "pure": True, "O": len(b["outputs"]), "diff": False}
+                for b in bases]
+        nops = draw(st.integers(1, max_ops))
+        for _ in range(nops):
+            ops_ok = []
+            idx = list(range(len(pipe)))
+            pure = [i for i in idx if info[i]["pure"] and not info[i]["diff"]]
+            nonempty = [i for i in idx if info[i]["scope"]]
+            if pure:
+                ops_ok += ["conjugate", "multiply", "multiply"]
+            if family == "prob" and [i for i in nonempty if not info[i]["diff"]]:
+                ops_ok += ["integrate", "integrate"]
+            if family == "poly" and [i for i in pure if info[i]["scope"] and info[i]["O"] <= 2]:
+                ops_ok += ["differentiate", "differentiate"]
+            if nonempty:
+                ops_ok += ["evidence"]
+            ops_ok += ["concatenate"]
+            op = draw(st.sampled_from(ops_ok))
+            if op == "conjugate":
+                a = draw(st.sampled_from(pure))
+                pipe.append({"op": op, "a": a})
+                info.append(dict(info[a]))
+            elif op == "multiply":
+                a = draw(st.sampled_from(pure))
+                cands = [i for i in pure if info[i]["scope"] == info[a]["scope"] and info[i]["K"] * info[a]["K"] <= 16
+                         and info[i]["O"] * info[a]["O"] <= 6]
+                if not cands:
+                    continue
+                b = draw(st.sampled_from(cands))
+                pipe.append({"op": op, "a": a, "b": b})
+                info.append({"scope": info[a]["scope"], "K": info[a]["K"] * info[b]["K"], "pure": True,
+                             "O": info[a]["O"] * info[b]["O"], "diff": False})
+            elif op == "integrate":
+                a = draw(st.sampled_from([i for i in nonempty if not info[i]["diff"]]))
+                Z = draw_subset(draw, info[a]["scope"])
+                pipe.append({"op": op, "a": a, "Z": Z})
+                info.append(dict(info[a], scope=info[a]["scope"] - frozenset(Z), pure=False))
+            elif op == "differentiate":
+                a = draw(st.sampled_from([i for i in pure if info[i]["scope"] and info[i]["O"] <= 2]))
+                pipe.append({"op": op, "a": a, "order": draw(st.sampled_from([1, 1, 2]))})
+                info.append(dict(info[a], O=info[a]["O"] * (len(info[a]["scope"]) + 1), diff=True))
+            elif op == "evidence":
+                a = draw(st.sampled_from(nonempty))
+                obs = draw_obs(draw, dom, info[a]["scope"])
+                pipe.append({"op": op, "a": a, "obs": obs})
+                info.append(dict(info[a], scope=info[a]["scope"] - frozenset(o[0] for o in obs), pure=False))
+            else:
+                a = draw(st.sampled_from(idx))
+                cands = [i for i in idx if info[i]["K"] == info[a]["K"]]
+                chosen = draw(st.lists(st.sampled_from(cands), min_size=1, max_size=3))
+                if sum(info[i]["O"] for i in chosen) > 12:
+                    continue
+                pipe.append({"op": op, "as": chosen})
+                info.append({"scope": frozenset().union(*[info[i]["scope"] for i in chosen]), "K": info[a]["K"],
+                             "pure": all(info[i]["pure"] for i in chosen), "O": sum(info[i]["O"] for i in chosen),
+                             "diff": any(info[i]["diff"] for i in chosen)})
+        return dict(cfg, bases=bases, pipe=pipe, family=family)
+
+    return _s()
+
+
+def _root_units(spec):
+    from vlib.spec import spec_units
+
+    return spec_units(spec)[spec["outputs"][0]]
+
+
+def has_continuous_integral(P):
+    for i, n in enumerate(P.pipe):
+        if n["op"] == "integrate":
+            Z = n["Z"] if n.get("Z") is not None else sorted(P.scopes[n["a"]])
+            if any(P.domains[v][0] == "c" for v in Z):
+                return True
+    return False
